@@ -1330,6 +1330,12 @@ func (i *indexImpl) Close() error {
 	i.mutex.Lock()
 	defer i.mutex.Unlock()
 
+	if !i.open {
+		// already closed: the underlying index must not be closed twice
+		// (scorch would close its closeCh channel a second time and panic)
+		return nil
+	}
+
 	indexStats.UnRegister(i)
 
 	i.open = false
